@@ -416,10 +416,8 @@ def run(ctx):
                 # the model's witness schedules terminate: a call that never returns under one of them is not a behaviour of the spec
                 ctx.deviation(None, "witness schedule %s: %s (observed %s)" % (x["name"], x.get("why"), x["observed"]),
                               dict(kind="schedule", schedule=[s for s in scheds if s["name"] == x["name"]]))
-            elif not x["ok"]:
-                # the real code did not stop where the model says it stops: not a model behaviour either
-                ctx.deviation(None, "witness schedule %s could not be forced on the real code: %s (observed %s)" % (x["name"], x.get("why"), x["observed"]),
-                              dict(kind="schedule", schedule=[s for s in scheds if s["name"] == x["name"]]))
+            # (a schedule that merely could not be forced - e.g. a repaired tree blocks where the as-built model runs on -
+            #  is no verdict: all calls were drained and the recorded history is judged below like any other)
         errors_in(ctx, tf, "witness-replay")
         drop_error_histories(tf)
         val.validate(tf, "witness", "witness-replay")
